@@ -245,8 +245,11 @@ static void judge(Ctx& ctx, const Case& c, bool from_replay) {
         cd.AddClip(C); c64.AddClip(C64);
         if (api == A_CD_PATHS) {
           PathsD dc, dopen; Paths64 rc, ropen; bool okd, ok64;
+          // result containers are not always fresh: a caller may hand over vectors that still hold an earlier result
+          if (c.geti("prefill", 0)) { dc = PathsD{ PathD{ PointD(1.0, 1.0), PointD(9.0, 1.0), PointD(9.0, 9.0) } }; dopen = PathsD{ PathD{ PointD(7.0, 7.0), PointD(8.0, 8.0) } };
+            rc = Paths64{ Path64{ Point64(1, 1), Point64(9, 1), Point64(9, 9) } }; ropen = Paths64{ Path64{ Point64(7, 7), Point64(8, 8) } }; ctx.count("executions_into_prefilled_result_containers"); }
           if (ov == 0) { okd = cd.Execute((ClipType)ct, (FillRule)fr, dc, dopen); ok64 = c64.Execute((ClipType)ct, (FillRule)fr, rc, ropen); }
-          else { okd = cd.Execute((ClipType)ct, (FillRule)fr, dc); ok64 = c64.Execute((ClipType)ct, (FillRule)fr, rc); }
+          else { dopen.clear(); ropen.clear();   /* closed-only overload: the open containers are not handed over */ okd = cd.Execute((ClipType)ct, (FillRule)fr, dc); ok64 = c64.Execute((ClipType)ct, (FillRule)fr, rc); }
           ctx.evaluated(); ++compared;
           if (okd != ok64) { fail("C16.clipperd_closed_paths", { "return_value_differs" }, "Execute returned " + std::to_string(okd) + ", Clipper64 " + std::to_string(ok64)); break; }
           if (!rc.empty()) nonempty = true;
@@ -259,8 +262,10 @@ static void judge(Ctx& ctx, const Case& c, bool from_replay) {
                                           PolyTree64 t; Paths64 o; x.Execute((ClipType)ct, (FillRule)fr, t, o); })) {
             ctx.count("premise_rejected_reference_polytree_build_crashes"); skipped = true; break; }
           PolyTreeD td; PolyTree64 t64; PathsD dopen; Paths64 ropen; bool okd, ok64;
+          if (c.geti("prefill", 0)) { td.AddChild(PathD{ PointD(1.0, 1.0), PointD(9.0, 1.0), PointD(9.0, 9.0) }); t64.AddChild(Path64{ Point64(1, 1), Point64(9, 1), Point64(9, 9) });
+            dopen = PathsD{ PathD{ PointD(7.0, 7.0), PointD(8.0, 8.0) } }; ropen = Paths64{ Path64{ Point64(7, 7), Point64(8, 8) } }; ctx.count("executions_into_prefilled_result_containers"); }
           if (ov == 0) { okd = cd.Execute((ClipType)ct, (FillRule)fr, td, dopen); ok64 = c64.Execute((ClipType)ct, (FillRule)fr, t64, ropen); }
-          else { okd = cd.Execute((ClipType)ct, (FillRule)fr, td); ok64 = c64.Execute((ClipType)ct, (FillRule)fr, t64); }
+          else { dopen.clear(); ropen.clear(); okd = cd.Execute((ClipType)ct, (FillRule)fr, td); ok64 = c64.Execute((ClipType)ct, (FillRule)fr, t64); }
           ctx.evaluated(); ++compared;
           if (okd != ok64) { fail("C16.clipperd_tree", { "return_value_differs" }, "Execute returned " + std::to_string(okd) + ", Clipper64 " + std::to_string(ok64)); break; }
           long long nodes = 0; int maxdepth = 0; std::string kind, det;
@@ -481,7 +486,7 @@ void vf_case(Ctx& ctx, uint64_t i) {
 
   if (api <= A_BOOL) {
     c.seti("ct", r.chance(0.03) ? 0 : r.irange(1, 4)); c.seti("fr", r.irange(0, 3));
-    c.seti("pc", r.coin()); c.seti("rev", r.coin()); c.seti("ov", r.chance(0.2) ? 1 : 0);
+    c.seti("pc", r.coin()); c.seti("rev", r.coin()); c.seti("ov", r.chance(0.2) ? 1 : 0); c.seti("prefill", r.chance(0.4));
     Paths64 subj, clip, open; int kind = 0;
     if (!biased && r.chance(0.15)) {
       // features of a few scaled units: crossings round onto vertices and onto each other, so the engine's point rings
